@@ -17,6 +17,18 @@ rule = perm(<permissions>, groups, roles, labels) inside db.set_perms_for(<A | A
     role / label assignment; every entity, attribute (pk, plain, hidden, subclass, both ends of the
     relationship) and object as target.
 
+  * family 'getters' (registration matrix): every registration of ONE user_groups_getter (user_cls in
+    None / U / subclass US / unrelated UO), ONE user_roles_getter (user_cls x obj_cls in None / A /
+    subclass A2 / other entity B), ONE obj_labels_getter (obj_cls), each in three return forms (list,
+    single str or None, frozenset) with the other two kinds registered for everything; two getters of
+    one kind handing out different names (quick: roles unordered pairs, groups/labels ordered pairs;
+    thorough: all ordered pairs plus the full product groups x roles x labels of single getters).
+    For each configuration: users anonymous / U / US / UO x every object of A, A2, B and every
+    entity x view rules on A, A2, B, A+B that need nothing, one handed-out name, or all of them.
+    Oracle G: get_user_groups / get_user_roles / get_object_labels return exactly the names of the
+    registrations whose classes match (isinstance; None = any); oracle D: has_perm == reference
+    decision computed from those names. A getter discrepancy is shrunk to the registrations needed.
+
 Oracles
   D   reference decision (documented reading, DESIGN C34). For the two ends of a relationship the
       reading of "reverse side" is ambiguous: with F = granted by a rule of the attribute's own
@@ -188,6 +200,13 @@ def env():
         def __init__(self, groups): self.groups = groups
         def __repr__(self): return 'User(%s)' % ','.join(self.groups)
     E.users = [None if g is None else User(g) for g in USERS]
+    class U(object):
+        def __repr__(self): return type(self).__name__ + '()'
+    class US(U): pass
+    class UO(object):
+        def __repr__(self): return 'UO()'
+    E.gcls = dict(U=U, US=US, UO=UO)
+    E.gusers = [None if c is None else E.gcls[c]() for c in GUSERS]
     @pc.user_groups_getter(User)
     def _groups(user): return user.groups
     @pc.user_roles_getter(User, A)
@@ -472,6 +491,216 @@ def judge_set(sub, E, ruleset, with_json, stats):
     return vs
 
 # ---------------------------------------------------------------------------------------------
+# the getter registration matrix (family 'getters')
+#
+# A registration is (kind, user_cls, obj_cls, name, form): kind in groups / roles / labels; user_cls in
+# None / U / US (subclass of U) / UO (unrelated class); obj_cls in None / A / A2 (subclass of A) / B;
+# the getter hands out exactly one name (so that every name found on a user / object is attributable
+# to one registration), as a list, a single string (None when nothing) or a frozenset.
+# Groups are handed out unconditionally, roles on objects with an odd pk, labels on pk % 4 in (1, 2).
+
+UCLS = (None, 'U', 'US', 'UO')
+OCLS = (None, 'A', 'A2', 'B')
+GUSERS = (None, 'U', 'US', 'UO')                   # None = anonymous
+FORMS = ('list', 'str', 'frozenset')
+U_ISA = dict(U=('U',), US=('US', 'U'), UO=('UO',))
+O_ISA = dict(A=('A',), A2=('A2', 'A'), B=('B',))
+GTARGETS = [t for t in TARGETS if t[0] != 'attr']
+
+def _role_on(pk): return pk % 2 == 1
+def _label_on(pk): return pk % 4 in (1, 2)
+
+def g_expected(config, ucls, ent, pk):
+    """names the registrations hand out -> (groups, roles, labels); ent None: no object"""
+    groups, roles, labels = {'anybody'}, set(), set()
+    for kind, rc, oc, name, form in config:
+        u_ok = ucls is not None and (rc is None or rc in U_ISA[ucls])
+        o_ok = ent is not None and (oc is None or oc in O_ISA[ent])
+        if kind == 'groups':
+            if u_ok: groups.add(name)
+        elif kind == 'roles':
+            if u_ok and o_ok and _role_on(pk): roles.add(name)
+        elif o_ok and _label_on(pk): labels.add(name)
+    return groups, roles, labels
+
+def g_ref(rule, config, ucls, target):
+    perms, tgt, groups, roles, labels, eexcl, aexcl = rule
+    ent = target[1]
+    if ent not in ENTS[tgt] or ent in EXCL[eexcl]: return False
+    g, r, l = g_expected(config, ucls, ent if target[0] == 'obj' else None, target[2] if target[0] == 'obj' else 0)
+    if not set(groups) <= g: return False
+    if target[0] == 'entity': return True
+    return set(roles) <= r and set(labels) <= l
+
+def _rel(rc, actual, isa, anon):
+    if rc is None: return 'None'
+    if actual is None: return anon
+    if rc == actual: return 'same-class'
+    if rc in isa[actual]: return 'base-class'
+    if actual in isa[rc]: return 'subclass'
+    return 'other-class'
+
+def reg_text(reg, ucls, ent):
+    kind, rc, oc, name, form = reg
+    parts = []
+    if kind != 'labels': parts.append('user_cls=' + _rel(rc, ucls, U_ISA, 'given(anonymous user)'))
+    if kind != 'groups': parts.append('obj_cls=' + _rel(oc, ent, O_ISA, '-'))
+    return '%s_getter(%s)%s' % (kind, ', '.join(parts), '' if form == 'list' else ' returning ' + form)
+
+def g_install(E, config):
+    pc = E.pc
+    for lst in (pc.usergroup_functions, pc.userrole_functions, pc.objlabel_functions): del lst[:]
+    def shaped(name, form, on):
+        if form == 'str': return name if on else None
+        if form == 'frozenset': return frozenset([name] if on else ())
+        return [name] if on else []
+    for kind, rc, oc, name, form in config:
+        ua = (E.gcls[rc],) if rc else ()
+        if kind == 'groups':
+            def f(user, name=name, form=form): return shaped(name, form, True)
+            pc.user_groups_getter(*ua)(f)
+        elif kind == 'roles':
+            def f(user, obj, name=name, form=form): return shaped(name, form, _role_on(obj.id))
+            if oc: pc.user_roles_getter(E.gcls[rc] if rc else None, E.ent[oc])(f)
+            else: pc.user_roles_getter(*ua)(f)
+        else:
+            def f(obj, name=name, form=form): return shaped(name, form, _label_on(obj.id))
+            pc.obj_labels_getter(*((E.ent[oc],) if oc else ()))(f)
+
+def g_objects(E):
+    real = {}
+    for obj in E.ent['A'].select()[:]: real[('obj', type(obj).__name__, obj.id)] = obj
+    for obj in E.ent['B'].select()[:]: real[('obj', 'B', obj.id)] = obj
+    for t in GTARGETS:
+        if t[0] == 'entity': real[t] = E.ent[t[1]]
+    if len(real) != len(GTARGETS): raise core.HarnessError('fixture objects missing')
+    return real
+
+def g_direct(E, config, stats=None):
+    """get_user_groups / get_user_roles / get_object_labels against the registrations.
+    -> list of (kind, ui, target or None, name, 'applied'|'not-applied'), registrations already installed"""
+    pc, out = E.pc, []
+    byname = dict((reg[3], reg) for reg in config)
+    def cmp(kind, ui, t, got, exp):
+        if stats is not None: stats['getter_answers'] += 1
+        if isinstance(got, str): out.append((kind, ui, t, got, 'raised')); return
+        for name in sorted(set(got) ^ set(exp)):
+            if name in byname: out.append((kind, ui, t, name, 'applied' if name in got else 'not-applied'))
+            else: out.append((kind, ui, t, str(name), 'unregistered-name'))
+    def call(f, *a):
+        try: return set(f(*a))
+        except Exception as e: return 'EXC:' + type(e).__name__
+    with E.orm.db_session:
+        real = g_objects(E)
+        for ui, ucls in enumerate(GUSERS):
+            user = E.gusers[ui]
+            cmp('groups', ui, None, call(pc.get_user_groups, user), g_expected(config, ucls, None, 0)[0])
+            for t in GTARGETS:
+                if t[0] != 'obj': continue
+                cmp('roles', ui, t, call(pc.get_user_roles, user, real[t]), g_expected(config, ucls, t[1], t[2])[1])
+        for t in GTARGETS:
+            if t[0] == 'obj':
+                cmp('labels', None, t, call(pc.get_object_labels, real[t]), g_expected(config, None, t[1], t[2])[2])
+    return out
+
+def g_blame(E, config, d):
+    """signature tail of one getter discrepancy, after dropping every registration that is not needed for it"""
+    kind, ui, t, name, how = d
+    cur = tuple(config)
+    progress = True
+    while progress and len(cur) > 1:
+        progress = False
+        for i in range(len(cur)):
+            cand = cur[:i] + cur[i + 1:]
+            g_install(E, cand)
+            if d in g_direct(E, cand):
+                cur = cand; progress = True
+                break
+    g_install(E, config)
+    ucls = GUSERS[ui] if ui is not None else None
+    ent = t[1] if t is not None else None
+    mine = [r for r in cur if r[3] == name]
+    others = [r for r in cur if r[3] != name]
+    s = '%s %s' % (reg_text(mine[0], ucls, ent) if mine else 'no registration', how)
+    if others:
+        s += ' with ' + ' + '.join('%s %s' % (reg_text(r, ucls, ent), 'before' if cur.index(r) < cur.index(mine[0]) else 'after')
+                                   if mine else reg_text(r, ucls, ent) for r in others)
+    return s, cur
+
+def g_rules(config):
+    names = dict(groups=[], roles=[], labels=[])
+    for reg in config: names[reg[0]].append(reg[3])
+    reqs = [((), (), ())]
+    for n in names['groups']: reqs.append(((n,), (), ()))
+    for n in names['roles']: reqs.append(((), (n,), ()))
+    for n in names['labels']: reqs.append(((), (), (n,)))
+    reqs.append((tuple(names['groups']), tuple(names['roles']), tuple(names['labels'])))
+    return [mk(('view',), tgt, g, r, l) for tgt in ('A', 'A2', 'B', 'AB') for (g, r, l) in reqs]
+
+def g_judge(E, config, stats=None, only_rule=None):
+    """one registration configuration: the three getters directly, then has_perm under every rule of
+    g_rules(config). -> list of (signature, case, message)"""
+    pc = E.pc
+    saved = [list(l) for l in (pc.usergroup_functions, pc.userrole_functions, pc.objlabel_functions)]
+    out = []
+    try:
+        g_install(E, config)
+        blame = defaultdict(list)
+        for d in g_direct(E, config, stats):
+            kind, ui, t, name, how = d
+            tail, small = g_blame(E, config, d)
+            for u in (range(len(GUSERS)) if ui is None else (ui,)):
+                for tt in (GTARGETS if t is None else (t,)): blame[(u, tt)].append(tail)
+            if only_rule is None:
+                out.append(('G-getter | ' + tail, dict(getters=[list(r) for r in small], direct=[kind, ui, t, name, how],
+                                                       original=[list(r) for r in config]),
+                            'G: get_%s for user %s%s: name %r %s' % (kind, GUSERS[ui] if ui is not None else '-',
+                                                                     '' if t is None else ' on %s[%d]' % (t[1], t[2]), name, how)))
+        for rule in (g_rules(config) if only_rule is None else [only_rule]):
+            declare(E, [rule])
+            with E.orm.db_session:
+                real = g_objects(E)
+                for ui, ucls in enumerate(GUSERS):
+                    user = E.gusers[ui]
+                    for t in GTARGETS:
+                        got = _call(pc.has_perm, user, 'view', real[t])
+                        exp = g_ref(rule, config, ucls, t)
+                        if stats is not None:
+                            stats['decisions'] += 1
+                            stats['getter_matrix_decisions'] += 1
+                            if isinstance(got, str): stats['refused:' + got] += 1
+                            else: stats['granted' if got else 'denied'] += 1
+                        if isinstance(got, str) or got == exp: continue
+                        law = 'D-granted-but-not-declared' if got else 'D-declared-but-denied'
+                        why = sorted(set(blame.get((ui, t), ()))) or ['getters answer as registered']
+                        needs = '+'.join(k for k, v in zip(('groups', 'roles', 'labels'), rule[2:5]) if v) or 'nothing'
+                        sig = '%s | %s | rule needs %s | %s' % (law, target_kind(t), needs, ' ; '.join(why))
+                        out.append((sig, dict(getters=[list(r) for r in config], rule=list(rule), user=ucls, target=list(t)),
+                                    '%s: view %s for user %s under %s with getters %s: has_perm -> %r, declared %r'
+                                    % (law, '.'.join(map(str, t[1:])), ucls or 'anonymous', rule_text(rule),
+                                       [reg_text(r, ucls, t[1]) for r in config], got, exp)))
+    finally:
+        for lst, old in zip((pc.usergroup_functions, pc.userrole_functions, pc.objlabel_functions), saved): lst[:] = old
+        for ent in E.ent.values(): ent._access_rules_.clear()
+    return out
+
+def g_configs(quick):
+    def G(u, n='g1', f='list'): return ('groups', u, None, n, f)
+    def R(u, o, n='r1', f='list'): return ('roles', u, o, n, f)
+    def L(o, n='l1', f='list'): return ('labels', None, o, n, f)
+    dG, dR, dL = (G(None),), (R(None, None),), (L(None),)
+    UO_ = [(u, o) for u in UCLS for o in OCLS]
+    Gs = [(G(u, f=f),) for u in UCLS for f in FORMS] + [(G(u1), G(u2, 'g2')) for u1 in UCLS for u2 in UCLS]
+    Ls = [(L(o, f=f),) for o in OCLS for f in FORMS] + [(L(o1), L(o2, 'l2')) for o1 in OCLS for o2 in OCLS]
+    Rs = [(R(u, o, f=f),) for u, o in UO_ for f in FORMS]
+    Rs += [(R(u1, o1), R(u2, o2, 'r2')) for i, (u1, o1) in enumerate(UO_) for j, (u2, o2) in enumerate(UO_) if i <= j or not quick]
+    out = [g + dR + dL for g in Gs] + [dG + r + dL for r in Rs] + [dG + dR + l for l in Ls]
+    out += [(), dG, dR, dL]
+    if not quick:
+        out += [(G(u), R(u2, o), L(o2)) for u in UCLS for (u2, o) in UO_ for o2 in OCLS]
+    return sorted(set(out), key=repr)
+
+# ---------------------------------------------------------------------------------------------
 # enumeration
 
 AEXCL_FULL = ((), ('A.name',), ('A.b',), ('B.a_set',), ('A.b', 'B.a_set'), ('B.title',), ('A2.extra',))
@@ -531,6 +760,15 @@ def work(item):
             for j in range(i, len(dd)):
                 for k in range(j, len(dd)): sets.append((dd[i], dd[j], dd[k]))
         with_json = False
+    elif fam == 'getters':
+        _, quick, lo, hi = item
+        for config in g_configs(quick)[lo:hi]:
+            g0, d0 = stats['granted'], stats['denied']
+            for sig, case, msg in g_judge(E, config, stats):
+                sub.count('raw_disagreements')
+                sub.violation(sig, case, msg)
+            sub.count('getter_configurations')
+            if stats['granted'] > g0 and stats['denied'] > d0: sub.count('nontrivial_getter_configurations')
     else: raise core.HarnessError('item %r' % (item,))
     for rs in sets:
         rs = tuple(sorted(rs))
@@ -593,6 +831,8 @@ def run(ctx):
     for lo, hi in chunks(len(D[tdom]), 2): items.append(('pair', quick, tdom, lo, hi, True))
     for lo, hi in chunks(len(D[tdom]), 4): items.append(('mixed', quick, tdom, lo, hi))
     for lo, hi in chunks(len(D[tdom]), 1): items.append(('triple', quick, tdom, lo, hi))
+    ncfg = len(g_configs(quick))
+    for lo, hi in chunks(ncfg, 8): items.append(('getters', quick, lo, hi))
     items = ctx.shuffled(items)
     for dumped in ctx.pmap(work, items):
         core.absorb(ctx, dumped)
@@ -607,6 +847,14 @@ def run(ctx):
     ctx.guard('granted decisions', c.get('granted', 0), 10000)
     ctx.guard('denied decisions', c.get('denied', 0), 10000)
     ctx.guard('has_perm iterated the ordered rule containers', c.get('ordered_container_iterations', 0), 10000)
+    ctx.guard('getter registration configurations', c.get('getter_configurations', 0), ncfg)
+    ctx.guard('getter registration configurations with grants and denials', c.get('nontrivial_getter_configurations', 0), 100)
+    ctx.guard('get_user_groups / get_user_roles / get_object_labels answers compared', c.get('getter_answers', 0), 10000)
+    ctx.cov['getter_matrix'] = ('%d registration configurations: user_groups_getter x user_cls in None/U/US(U)/UO, user_roles_getter x user_cls x obj_cls in '
+                                'None/A/A2(A)/B, obj_labels_getter x obj_cls, each in 3 return forms; two getters of one kind in %s; %s'
+                                'x users anonymous/U/US/UO x every object and entity x rules (A, A2, B, A+B) needing nothing / one name / all names'
+                                % (ncfg, 'every unordered pair (roles) / ordered pair (groups, labels)' if quick else 'every ordered pair',
+                                   '' if quick else 'the full product of one getter per kind; '))
     ctx.guard('to_json answered', c.get('to_json_answered', 0), 1000)
     ctx.guard('to_json refused (PermissionError)', c.get('to_json_refused', 0), 1000)
     ctx.guard('objects emitted by to_json and checked', c.get('to_json_objects_emitted', 0), 1000)
@@ -617,6 +865,9 @@ def run(ctx):
                'reverse reading agree (both grant -> True, neither grants -> False); %d decisions were left open' % c.get('ambiguous_reverse_side', 0))
     ctx.assume('entity._access_rules_[perm] (a set of AccessRule objects hashed by address) is replaced by an ordered container so that '
                'every iteration order of the rule set is exercised deterministically; rules are reset by clearing entity._access_rules_')
+    ctx.assume('getter registrations are reset by emptying pony.orm.core.usergroup_functions / userrole_functions / objlabel_functions '
+               '(restored afterwards); a getter applies iff isinstance(user, user_cls) and isinstance(obj, obj_cls), None = any; '
+               'the anonymous user has the group anybody only and no roles')
     ctx.assume('can_view may or may not be implied by an edit rule: both accepted')
     return dict(evaluations=c.get('decisions', 0), distinct_nontrivial=c.get('nontrivial_rule_sets', 0),
                 rule='evaluations = has_perm decisions compared with the reference (users x permissions x targets x rule set x order); '
@@ -626,6 +877,14 @@ def replay(ctx, case):
     E = env()
     if 'refusal' in case:
         refusals(ctx); return not ctx.found
+    if 'getters' in case:
+        config = tuple(tuple(tuple(x) if isinstance(x, list) else x for x in r) for r in case['getters'])
+        rule = case.get('rule')
+        if rule is not None: rule = tuple(tuple(x) if isinstance(x, list) else x for x in rule)
+        res = g_judge(E, config, only_rule=rule)
+        if rule is None: res = [r for r in res if r[0].startswith('G-')]
+        for sig, c, msg in res: print('  %s\n    %s' % (sig, msg))
+        return not res
     rs = tuple(sorted(tuple(tuple(x) if isinstance(x, list) else x for x in r) for r in case['rules']))
     vs = find_violations(E, rs, case.get('with_json', False))
     print('rules:', ' ; '.join(rule_text(r) for r in rs))
